@@ -354,6 +354,19 @@ async fn compio_line(st: &mut CState, dir: &Path, w: &[&str]) -> Obs {
         return obs("unsupported");
     }
     match w {
+        ["openx", ..] => {
+            let Some((h, name, b, custom, mode)) = parse_openx(w) else { return obs("bad-op") };
+            let mut oo = compio_fs::OpenOptions::new();
+            oo.read(b[0]).write(b[1]).truncate(b[2]).create(b[3]).create_new(b[4]).custom_flags(custom).mode(mode);
+            match oo.open(dir.join(name)).await {
+                Ok(f) => {
+                    let o = openx_obs(f.as_raw_fd());
+                    st.files.insert(h, f);
+                    o
+                }
+                Err(e) => err_obs(&e),
+            }
+        }
         ["mkfifo", name] => res_obs(mkfifo(&dir.join(name))),
         ["fifo", p, name] => {
             let Some(p) = num(p) else { return obs("bad-op") };
@@ -721,6 +734,26 @@ async fn compio_line(st: &mut CState, dir: &Path, w: &[&str]) -> Obs {
     }
 }
 
+/// `ok <access mode>`; the comparable part also carries the status flags F_GETFL reports
+fn openx_obs(fd: i32) -> Obs {
+    let fl = unsafe { libc::fcntl(fd, libc::F_GETFL) };
+    if fl < 0 {
+        return err_obs(&io::Error::last_os_error());
+    }
+    let text = format!("ok {}", fl & libc::O_ACCMODE);
+    let status = fl & (libc::O_APPEND | libc::O_SYNC | libc::O_DSYNC | libc::O_DIRECT | libc::O_NOATIME);
+    Obs { cmp: format!("{text} status={status:o}"), text, unrecorded: None }
+}
+
+fn parse_openx<'a>(w: &[&'a str]) -> Option<(u64, &'a str, Vec<bool>, i32, u32)> {
+    let [_, h, name, bits, custom, mode] = w else { return None };
+    if bits.len() != 5 || !bits.bytes().all(|b| b == b'0' || b == b'1') {
+        return None;
+    }
+    let custom: u32 = custom.parse().ok()?;
+    Some((h.parse().ok()?, name, bits.bytes().map(|x| x == b'1').collect(), custom as i32, u32::from_str_radix(mode, 8).ok()?))
+}
+
 fn is_fifo_path(p: &Path) -> bool {
     use std::os::unix::fs::FileTypeExt;
     std::fs::metadata(p).map(|m| m.file_type().is_fifo()).unwrap_or(false)
@@ -729,7 +762,7 @@ fn is_fifo_path(p: &Path) -> bool {
 /// opening a FIFO through the plain file API would block (no peer): such lines are not executed
 fn fifo_guard(dir: &Path, w: &[&str]) -> bool {
     let name = match w {
-        ["open", _, name, _] | ["fseqopen", _, name, _] => name,
+        ["open", _, name, _] | ["fseqopen", _, name, _] | ["openx", _, name, _, _, _] => name,
         ["content", name] | ["readall", name] | ["writeall", name, _] => name,
         _ => return false,
     };
@@ -856,6 +889,20 @@ fn os_line(st: &mut OState, dir: &Path, w: &[&str]) -> Obs {
         Err(e) => err_obs(&e),
     };
     match w {
+        ["openx", ..] => {
+            use std::os::unix::fs::OpenOptionsExt;
+            let Some((h, name, b, custom, mode)) = parse_openx(w) else { return obs("bad-op") };
+            let mut oo = std::fs::OpenOptions::new();
+            oo.read(b[0]).write(b[1]).truncate(b[2]).create(b[3]).create_new(b[4]).custom_flags(custom).mode(mode);
+            match oo.open(dir.join(name)) {
+                Ok(f) => {
+                    let o = openx_obs(f.as_raw_fd());
+                    st.files.insert(h, f);
+                    o
+                }
+                Err(e) => err_obs(&e),
+            }
+        }
         ["mkfifo", name] => res_obs(mkfifo(&dir.join(name))),
         ["fifo", p, name] => {
             use std::os::unix::fs::FileTypeExt;
@@ -1207,6 +1254,43 @@ fn gen_setup(rng: &mut Rng, l: &mut Vec<String>) {
     }
 }
 
+/// custom flags: harmless ones, with and without access-mode bits (as copy-pasted from a C `open(2)` call)
+fn gen_custom(rng: &mut Rng) -> u32 {
+    let base = *rng.pick(&[0, 0, libc::O_NOFOLLOW, libc::O_NOFOLLOW, libc::O_SYNC, libc::O_CLOEXEC, libc::O_NOFOLLOW | libc::O_SYNC, libc::O_NOCTTY]);
+    let acc = *rng.pick(&[0, 0, libc::O_WRONLY, libc::O_RDWR, libc::O_RDWR, 3]);
+    (base | acc) as u32
+}
+
+fn gen_mode(rng: &mut Rng) -> &'static str {
+    *rng.pick(&["666", "644", "600", "640", "444", "0", "755"])
+}
+
+fn gen_openx_case(rng: &mut Rng) -> Vec<String> {
+    let mut l = vec![];
+    gen_setup(rng, &mut l);
+    let mut handles = vec![];
+    for h in 1..=rng.range(1, 2) {
+        let w = rng.chance(1, 2);
+        let r = !w || rng.chance(1, 2);
+        let b = bits(r, w, w && rng.chance(1, 4), w && rng.chance(1, 2), w && rng.chance(1, 6));
+        l.push(format!("openx {h} {} {b} {} {}", rng.pick(&NAMES), gen_custom(rng), gen_mode(rng)));
+        l.push(format!("meta {h}"));
+        handles.push(h);
+    }
+    // what the descriptor can do: one read, one write, then random ops
+    for h in &handles {
+        l.push(format!("readat {h} 0 6:0:{}", rng.below(256)));
+        l.push(format!("writeat {h} 1 {}:0", hex(&rbytes(rng, 1, 3))));
+    }
+    let n = rng.range(1, 4);
+    gen_file_ops(rng, &mut l, &handles, n);
+    for name in NAMES {
+        l.push(format!("lstat {name}"));
+        l.push(format!("content {name}"));
+    }
+    l
+}
+
 fn gen_open_case(rng: &mut Rng) -> Vec<String> {
     let mut l = vec![];
     gen_setup(rng, &mut l);
@@ -1447,6 +1531,32 @@ fn generate(tier: &str, rng: &mut Rng) -> Vec<Case> {
     }
     for i in 0..300 * scale {
         push(format!("rw/{i}"), gen_rw_case(rng));
+    }
+    // custom flags with / without access-mode bits on the three access settings, file and symlink
+    for (ai, acc) in ["10000", "01000", "11000", "01010"].iter().enumerate() {
+        for custom in [0, 1, 2, 3, libc::O_NOFOLLOW, libc::O_NOFOLLOW | 1, libc::O_NOFOLLOW | 2, libc::O_SYNC | 2, libc::O_CLOEXEC | 1] {
+            for (k, setup) in [
+                ("file", vec!["writeall a 30313233343536373839".to_string()]),
+                ("link", vec!["writeall b 3031323334".to_string(), "symlink b a".to_string()]),
+            ] {
+                if tier != "thorough" && (ai + custom as usize + k.len()) % 2 == 1 {
+                    continue;
+                }
+                let mut l = setup.clone();
+                l.push(format!("openx 1 a {acc} {custom} 640"));
+                l.push("meta 1".into());
+                l.push("readat 1 2 4:0:0".into());
+                l.push("writeat 1 0 7a7a:0".into());
+                l.push("setlen 1 3".into());
+                l.push("lstat a".into());
+                l.push("content a".into());
+                l.push("content b".into());
+                push(format!("openx/{k}/{acc}/{custom}"), l);
+            }
+        }
+    }
+    for i in 0..120 * scale {
+        push(format!("openx-rand/{i}"), gen_openx_case(rng));
     }
     for i in 0..100 * scale {
         push(format!("open-rand/{i}"), gen_open_case(rng));
